@@ -112,6 +112,7 @@ type CorrFile struct {
 	descs   []interface{}
 	files   []string
 	total   int
+	size    int
 	typ     string // optional Coq type of one case (needed when a shard could be all-None)
 }
 
@@ -129,7 +130,8 @@ func (c *CorrFile) Add(term string, desc interface{}) {
 	c.terms = append(c.terms, term)
 	c.descs = append(c.descs, desc)
 	c.total++
-	if len(c.terms) >= c.max {
+	c.size += len(term)
+	if len(c.terms) >= c.max || c.size > 400000 {
 		c.flush()
 	}
 }
@@ -162,7 +164,7 @@ func (c *CorrFile) flush() {
 	os.WriteFile(filepath.Join(c.h.Out, base+".json"), b, 0o644)
 	c.files = append(c.files, base)
 	c.shard++
-	c.terms, c.descs = nil, nil
+	c.terms, c.descs, c.size = nil, nil, 0
 }
 
 func (h *H) finish() {
@@ -198,7 +200,38 @@ func (h *H) finish() {
 
 // ---- Coq term printing -----------------------------------------------------------------
 
-func coqHx(b []byte) string  { return `(hx "` + hex.EncodeToString(b) + `")` }
+// coqHx renders a byte string as a Coq term; runs of >= 48 equal bytes are run-length
+// encoded so that strings around the 4096-byte threshold stay small terms.
+func coqHx(b []byte) string {
+	if len(b) < 96 {
+		return `(hx "` + hex.EncodeToString(b) + `")`
+	}
+	var parts []string
+	start := 0
+	flushLit := func(end int) {
+		if end > start {
+			parts = append(parts, `hx "`+hex.EncodeToString(b[start:end])+`"`)
+		}
+	}
+	i := 0
+	for i < len(b) {
+		j := i
+		for j < len(b) && b[j] == b[i] {
+			j++
+		}
+		if j-i >= 48 {
+			flushLit(i)
+			parts = append(parts, fmt.Sprintf(`rep %d (hx "%02x")`, j-i, b[i]))
+			start = j
+		}
+		i = j
+	}
+	flushLit(len(b))
+	if len(parts) == 0 {
+		return `(hx "")`
+	}
+	return "(" + strings.Join(parts, " ++ ") + ")"
+}
 func coqHxS(s string) string { return coqHx([]byte(s)) }
 func coqBool(b bool) string {
 	if b {
